@@ -289,3 +289,113 @@ theorem marshalDeep_of_children_fixed (f : Shape → JV → Res JV) (d : Desc) (
     rfl
 
 end KinModel.Marshal
+
+namespace KinModel.Marshal
+
+/-- a normal-form object comes back unchanged, key by key (proof of `flat_normal_roundtrip`) -/
+theorem flat_normal_lookup (d : Desc) (o : Obj) (k : String) (w : WF compat d) (hn : normalObjB d o = true) :
+    lookup k (flatRT d o) = lookup k o := by
+  rw [flatRT_lookup d o k w.ext w.unm w.asg w.nodupM]
+  simp only [normalObjB, Bool.and_eq_true, List.all_eq_true, Bool.or_eq_true, Bool.not_eq_true',
+    beq_iff_eq] at hn
+  obtain ⟨⟨⟨_, hnd⟩, hreq⟩, hsib⟩ := hn
+  -- a present field value is not a default, so it is stored and written as it is
+  have present : ∀ (f : Field) (v : JV), f ∈ d.fields → lookup f.key o = some v → isDefault f.tc v = false := by
+    intro f v hf hv
+    have := hnd (f.key, v) (lookup_mem f.key v o hv)
+    have hk : fieldByKey d f.key = some f := find_field_of_nodup f d.fields w.nodupTags hf
+    simpa [hk] using this
+  -- a `$ref` key in a kind with the early return means the object is exactly that reference
+  have refOnly : d.refEarly = true → ∀ x, lookup "$ref" o = some x → refTaken d o = true ∧ o = [("$ref", x)] := by
+    intro hre x hx
+    obtain ⟨f, hf, hfk, htc⟩ := w.refField hre
+    have hfm : f ∈ d.fields := List.mem_of_find?_eq_some hf
+    have hdx := present f x hfm (hfk ▸ hx)
+    rw [htc] at hdx
+    have hlen : o.length = 1 := by
+      rcases hsib with h1 | h1
+      · simp [hre, hasKey, hx] at h1
+      · exact h1
+    constructor
+    · unfold refTaken
+      simp only [hre, Bool.true_and, fldVal, hf, hfk, htc, hx]
+      cases x <;> simp_all [isDefault, decode, JV.isNull, JV.isEmptyStr]
+    · match o, hlen, hx with
+      | [(k0, v0)], _, hx =>
+        simp only [lookup] at hx
+        by_cases e : "$ref" = k0
+        · simp only [e, if_true, Option.some.injEq] at hx; simp [← e, hx]
+        · simp [e] at hx
+  cases hr : refTaken d o with
+  | true =>
+    have hre : d.refEarly = true := by
+      unfold refTaken at hr; simp only [Bool.and_eq_true] at hr; exact hr.1
+    obtain ⟨f, hf, hfk, htc⟩ := w.refField hre
+    rw [flatSpec_ref d o k hr]
+    cases hx : lookup "$ref" o with
+    | none =>
+      unfold refTaken at hr
+      simp [hre, fldVal, hf, hfk, htc, hx, decode, zero, JV.isEmptyStr] at hr
+    | some x =>
+      obtain ⟨_, ho⟩ := refOnly hre x hx
+      have hfm : f ∈ d.fields := List.mem_of_find?_eq_some hf
+      have hdx := present f x hfm (hfk ▸ hx)
+      have hval : fldVal d o "Ref" = x := by
+        simp only [fldVal, hf, hfk, hx]; exact decode_of_not_default f.tc x hdx
+      rw [hval, ho]
+      by_cases e : k = "$ref" <;> simp [lookup, e]
+  | false =>
+    cases hfind : d.marsh.find? (fun m => m.key == k) with
+    | none =>
+      rw [flatSpec_none d o k hr hfind]
+      by_cases hc : k ∈ d.dels
+      · simp only [hc, if_true]
+        -- a tag without a write is `$ref` of a kind with the early return
+        have hkt : k ∈ tagKeys d := w.dels ▸ hc
+        have hnm : k ∉ marshKeys d := by
+          intro hm
+          obtain ⟨m, hm1, hm2⟩ := List.mem_map.mp hm
+          have := List.find?_eq_none.mp hfind m hm1
+          simp [hm2] at this
+        rw [w.keysEq] at hnm
+        unfold expectedMarshKeys at hnm
+        cases hre : d.refEarly with
+        | false => simp [hre] at hnm; exact absurd hkt hnm
+        | true =>
+          simp only [hre, if_true, List.mem_filter, not_and, bne_iff_ne, ne_eq, Decidable.not_not] at hnm
+          have hk := hnm hkt
+          subst hk
+          cases hx : lookup "$ref" o with
+          | none => rfl
+          | some x => have := (refOnly hre x hx).1; rw [hr] at this; cases this
+      · simp [hc]
+    | some m =>
+      rw [flatSpec_some d o k m hr hfind]
+      have hmem := List.mem_of_find?_eq_some hfind
+      have hkm : m.key = k := by simpa using List.find?_some hfind
+      obtain ⟨f, hf, hfk, hc⟩ := w.marshOK m hmem
+      have hfm : f ∈ d.fields := List.mem_of_find?_eq_some hf
+      have htc : tcOfGo d m.goName = f.tc := by simp [tcOfGo, hf]
+      have hdel : k ∈ d.dels := hkm ▸ marsh_key_in_dels compat d w m hmem
+      cases hx : lookup k o with
+      | some v =>
+        have hdv := present f v hfm (by rw [hfk, hkm]; exact hx)
+        have hval : fldVal d o m.goName = v := by
+          simp only [fldVal, hf, hfk, hkm, hx]; exact decode_of_not_default f.tc v hdv
+        simp [hval, htc, compat_keeps f.tc m.guard v hc hdv, written_of_not_default f.tc m.guard v hdv]
+      | none =>
+        have hval : fldVal d o m.goName = zero f.tc := by simp [fldVal, hf, hfk, hkm, hx, decode]
+        rw [hval, htc]
+        cases hg : guard f.tc m.guard (zero f.tc) with
+        | false => simp [hdel]
+        | true =>
+          have hal := compat_zero f.tc m.guard hc hg
+          have : k ∈ requiredKeys d := by
+            unfold requiredKeys; rw [← w.required]
+            simp only [alwaysKeys, List.mem_map, List.mem_filter]
+            exact ⟨m, ⟨hmem, hal⟩, hkm⟩
+          have := hreq k this
+          simp [hasKey, hx] at this
+
+
+end KinModel.Marshal
